@@ -24,6 +24,10 @@ import pane
 from pane.annotations import Condition, Tagged
 import pane.annotations as pa
 
+try:
+    import numpy as _np
+except ImportError:      # pragma: no cover
+    _np = None
 INT_MAX = 2 ** 31 - 1
 BIG = 10 ** 400
 Q_MAX = 2 ** 20
@@ -52,6 +56,17 @@ for _k, _v in POOL.items():
     _by_text[_v] = _k
 _texts: dict[str, t.Union[str, bytes]] = dict(POOL)
 _counter = [0]
+_PFX = os.environ.get('PANE_VERIF_TOKPREFIX', '')     # distinct tokens for a recording sub-process
+
+
+def merge_tokens(texts: dict, facts_tbl: dict) -> None:
+    """Adopt tokens interned (and facts computed) by a recording sub-process."""
+    for k, v in texts.items():
+        if k not in _texts and v is not None:
+            _texts[k] = v
+            _by_text.setdefault(v, k)
+    for k, f in facts_tbl.items():
+        _facts.setdefault(k, f)
 
 
 def tok(text: t.Union[str, bytes]) -> str:
@@ -63,7 +78,7 @@ def tok(text: t.Union[str, bytes]) -> str:
     k = _by_text.get(text)
     if k is None:
         _counter[0] += 1
-        k = ('u' if isinstance(text, str) else 'v') + str(_counter[0])
+        k = _PFX + ('u' if isinstance(text, str) else 'v') + str(_counter[0])
         _by_text[text] = k
         _texts[k] = text
         facts(k)  # interns canonical forms too
@@ -267,6 +282,8 @@ def abstract(x: t.Any) -> dict:
         return {'k': 'pat', 's': tok(x.pattern), 'b': 'T' if isinstance(x.pattern, bytes) else 'F'}
     if isinstance(x, enum.Enum) and ty.__name__ in ENUM_CLASSES and ENUM_CLASSES[ty.__name__] is ty:
         return {'k': 'enum', 'e': ty.__name__, 'i': list(ty.__members__.values()).index(x) + 1}
+    if _np is not None and ty is _np.ndarray:
+        return {'k': 'ndarray', 'shape': list(x.shape), 'xs': [abstract(e) for e in x.ravel().tolist()]}
     if isinstance(x, pane.PaneBase):
         info = ty.__pane_info__
         fs = []
@@ -355,6 +372,9 @@ def concretise(a: dict) -> t.Any:
         return pathlib.PurePosixPath(text(a['s']))
     if k == 'pat':
         return re.compile(text(a['s']))
+    if k == 'ndarray':
+        flat = [concretise(e) for e in a['xs']]
+        return _np.array(flat).reshape(tuple(a['shape']))
     if k == 'enum':
         return list(ENUM_CLASSES[a['e']].__members__.values())[a['i'] - 1]
     if k == 'sub':
@@ -384,6 +404,10 @@ def concretise_cond(c: dict, variant: int = 0) -> Condition:
         return pa.len_range(min=c['n'])
     if k == 'lenle':
         return pa.len_range(max=c['n'])
+    if k == 'shape':
+        return pa.shape(list(c['shape']) if variant % 2 else tuple(c['shape']))
+    if k == 'bcast':
+        return pa.broadcastable(list(c['shape']) if variant % 2 else tuple(c['shape']))
     if k == 'utrue':
         return _USER['utrue']
     if k == 'ufalse':
@@ -456,7 +480,7 @@ def n_spellings(T: dict) -> int:
     if k in _SCALARS:
         return len(_SCALARS[k])
     return {'list': 4, 'tuplevar': 4, 'set': 3, 'frozenset': 3, 'deque': 2, 'tuple': 3, 'dict': 5,
-            'defaultdict': 2, 'ordereddict': 2, 'counter': 2, 'union': 3, 'ann': 2}.get(k, 1)
+            'defaultdict': 2, 'ordereddict': 2, 'counter': 2, 'union': 3, 'ann': 2, 'ndarray': 1}.get(k, 1)
 
 
 def canon(a) -> str:
@@ -592,6 +616,13 @@ def _concretise_type(T: dict, sp: int, lit_ok: bool = True) -> t.Any:
         return t.Annotated[t.Union[tuple(vs)], Tagged(text(T['tag']), ext)]
     if k == 'cls':
         return make_class(T, sp)
+    if k == 'ndarray':
+        if _np is None:
+            raise OutOfVocab('numpy missing')
+        dt = {'int': _np.int64, 'float': _np.float64, 'bool': _np.bool_}.get(T['e']['k'])
+        if dt is None:
+            return _np.ndarray
+        return _np.ndarray[t.Any, _np.dtype[dt]]
     raise OutOfVocab(f'type kind {k}')
 
 
@@ -604,7 +635,12 @@ def make_class(C: dict, sp: int = 0) -> type:
     ann: dict = {}
     ns: dict = {}
     spell = C.get('spell')
+    parent = C.get('parent')
+    base_cls = make_class(parent, sp) if parent else pane.PaneBase
+    inherited = {canon(f) for f in parent['fs']} if parent else set()
     for fi, f in enumerate(C['fs']):
+        if canon(f) in inherited:
+            continue          # declared by the parent class, not again here
         n = text(f['n'])
         ann[n] = concretise_type(f['t'], sp)
         kw: dict = {}
@@ -673,7 +709,7 @@ def make_class(C: dict, sp: int = 0) -> type:
             if csp['out'] != 'none':
                 opts['out_rename'] = csp['out']
     try:
-        cls = types.new_class(C['name'], (pane.PaneBase,), opts, lambda d: d.update(ns))
+        cls = types.new_class(C['name'], (base_cls,), opts, lambda d: d.update(ns))
     except Exception as e:  # noqa
         CLASS_DEF_FAILURES.append((C['name'], type(e).__name__, str(e)[:120]))
         raise OutOfVocab(f'class definition refused by pane: {type(e).__name__}: {e}')
